@@ -12,9 +12,13 @@ package c10
 
 import (
 	"bytes"
+	"context"
 	"fmt"
+	"log/slog"
 	"net/netip"
+	"os"
 	"strings"
+	"sync"
 	"testing"
 	"time"
 
@@ -450,6 +454,73 @@ func run(e *core.Env) {
 	e.Sample("%d tracked frames, %d tracked crossings", len(trk), nc)
 }
 
+// classDelayed is the one recorded finding of C10 (KNOWN_FINDINGS.json): an honest frame is in
+// flight while another signed frame of the same router (its periodic announcement, relayed over
+// another path) reaches the destination first, stamped later or in the same millisecond. A router
+// stamps signed frames per destination and checks them per source, strictly increasing: the frame
+// that arrives second is refused as "delayed frame" or "immediate duplicate frame".
+const classDelayed = "full-stack/honest-frame-refused-by-the-order-check-of-signed-frames"
+
+// delayedLog is a slog.Handler that keeps the "delayed frame" refusals of the routers' frame
+// handlers: source and destination address of the refused frame and the simulated time.
+type delayedLog struct {
+	mu    sync.Mutex
+	recs  []delayedRec
+	lines []string // VERIF_SLOG: everything the routers log (looking closer at one replay)
+}
+
+type delayedRec struct {
+	src, dst string
+	at       time.Time
+}
+
+func (d *delayedLog) Enabled(context.Context, slog.Level) bool { return true }
+func (d *delayedLog) WithAttrs([]slog.Attr) slog.Handler       { return d }
+func (d *delayedLog) WithGroup(string) slog.Handler            { return d }
+func (d *delayedLog) Handle(_ context.Context, r slog.Record) error {
+	if os.Getenv("VERIF_SLOG") != "" && r.Level >= slog.LevelDebug {
+		line := r.Time.Format("15:04:05.000") + " " + r.Message
+		r.Attrs(func(a slog.Attr) bool { line += " " + a.Key + "=" + a.Value.String(); return true })
+		d.mu.Lock()
+		d.lines = append(d.lines, line)
+		d.mu.Unlock()
+	}
+	if r.Message != "failed to handle frame" {
+		return nil
+	}
+	var rec delayedRec
+	delayed := false
+	r.Attrs(func(a slog.Attr) bool {
+		switch a.Key {
+		case "router":
+			rec.src = a.Value.String()
+		case "dst":
+			rec.dst = a.Value.String()
+		case "err":
+			delayed = strings.Contains(a.Value.String(), "delayed frame") || strings.Contains(a.Value.String(), "immediate duplicate frame")
+		}
+		return true
+	})
+	if delayed {
+		rec.at = time.Now()
+		d.mu.Lock()
+		d.recs = append(d.recs, rec)
+		d.mu.Unlock()
+	}
+	return nil
+}
+
+func (d *delayedLog) has(src, dst netip.Addr, since time.Time) bool {
+	d.mu.Lock()
+	defer d.mu.Unlock()
+	for _, r := range d.recs {
+		if r.src == src.String() && r.dst == dst.String() && !r.at.Before(since) {
+			return true
+		}
+	}
+	return false
+}
+
 // runFullStack: the first sentence of the claim on the complete shipped stack - 3..6 real
 // top-level router instances on the simulated loopback interface (shipped TCP peering
 // protocol, handshake, link layer, keep-alives, switch, router; only the byte transport is
@@ -462,6 +533,12 @@ func run(e *core.Env) {
 func runFullStack(e *core.Env) {
 	tp := e.Tape
 	e.StartClock()
+	// The routers' own log is listened to for one thing: "delayed frame" refusals (who refused
+	// whose frame when), so that a lost request can be told apart by its cause.
+	refusals := &delayedLog{}
+	oldLog := slog.Default()
+	slog.SetDefault(slog.New(refusals))
+	e.Cleanup(func() { slog.SetDefault(oldLog) })
 	ms := fullmesh.Build(e, fullmesh.Options{MinNodes: 3, MaxNodes: 6, IdentBase: 8 * tp.Intn(2)})
 	n := len(ms.Insts)
 	e.Probe("fullstack_run")
@@ -493,6 +570,7 @@ func runFullStack(e *core.Env) {
 				U, V := ms.Insts[u], ms.Insts[v]
 				ms.TakeProbes()
 				payload := fmt.Sprintf("req %d>%d", u, v)
+				sentAt := time.Now()
 				if err := ms.SendProbe(u, v, payload); err != nil {
 					e.Fail("full-stack"+tag+"/request-not-routable", "%s cannot route a request to %s in a converged mesh: %v", U.Name, V.Name, err)
 				}
@@ -511,6 +589,24 @@ func runFullStack(e *core.Env) {
 					got = true
 				}
 				if !got {
+					if e.Trace {
+						for w := 0; w < n; w++ {
+							W := ms.Insts[w]
+							rte, isDst := W.In.RoutingTable().LookupNearest(V.IP)
+							nh := "none"
+							hops := 0
+							if rte != nil {
+								nh, hops = rte.NextHop.String(), len(rte.Path.Hops)
+							}
+							e.Tracef("at failure %s: %s -> %s: nexthop=%s isDst=%v hops=%d links=%d up=%s", time.Now().Format("15:04:05.000"), W.Name, V.Name, nh, isDst, hops, W.In.Peering().LinkCnt(), time.Since(W.StartedAt).Round(time.Second))
+						}
+						for w := 0; w < n; w++ {
+							e.Tracef("  %s = %s", ms.Insts[w].Name, ms.Insts[w].IP)
+						}
+					}
+					if refusals.has(U.IP, V.IP, sentAt) {
+						e.Fail(classDelayed, "%s mesh of %d real instances, edges %v: request %s>%s was refused by its destination's order check of signed frames (full-stack%s/request-not-delivered)", ms.Kind, n, ms.Edges, U.Name, V.Name, tag)
+					}
 					e.Fail("full-stack"+tag+"/request-not-delivered", "%s mesh of %d real instances, edges %v: request %s>%s was not handed to the destination", ms.Kind, n, ms.Edges, U.Name, V.Name)
 				}
 				// Wave 15: in a third of the pings the request leaves a moment before one of the
@@ -527,6 +623,7 @@ func runFullStack(e *core.Env) {
 						ms.CN.RunFor(tp, toTick+time.Minute-lead, 400000)
 					}
 				}
+				pingAt := time.Now()
 				notify, _, err := U.In.Router().PingPong.Send(V.IP, false, 0)
 				if err != nil {
 					e.Fail("full-stack"+tag+"/request-not-routable", "%s cannot send a ping to %s in a converged mesh: %v", U.Name, V.Name, err)
@@ -540,6 +637,16 @@ func runFullStack(e *core.Env) {
 				case <-notify:
 					e.Probe("fullstack_reply_reached_requester")
 				default:
+					if e.Trace {
+						refusals.mu.Lock()
+						for _, l := range refusals.lines[max(0, len(refusals.lines)-60):] {
+							e.Tracef("log: %s", l)
+						}
+						refusals.mu.Unlock()
+					}
+					if refusals.has(U.IP, V.IP, pingAt) || refusals.has(V.IP, U.IP, pingAt) {
+						e.Fail(classDelayed, "%s mesh of %d real instances, edges %v: %s pinged %s, request or answer was refused by the order check of signed frames (full-stack%s/reply-does-not-reach-requester)", ms.Kind, n, ms.Edges, U.Name, V.Name, tag)
+					}
 					e.Fail("full-stack"+tag+"/reply-does-not-reach-requester", "%s mesh of %d real instances, edges %v: %s pinged %s, no answer reached it within 2 s", ms.Kind, n, ms.Edges, U.Name, V.Name)
 				}
 			}
